@@ -12,7 +12,7 @@ from .interp import Exc, MapLoc
 
 MODULE_NAMES = {"np", "pm", "warnings", "math", "json", "itertools", "functools", "dataclasses",
                 "pulser", "copy", "inspect", "seq_decorators"}
-BUILTIN_FUNCS = {"int", "float", "bool", "len", "abs", "max", "min", "sum", "set", "tuple", "list",
+BUILTIN_FUNCS = {"chain", "wraps", "int", "float", "bool", "len", "abs", "max", "min", "sum", "set", "tuple", "list",
                  "dict", "sorted", "any", "all", "round", "isinstance", "hasattr", "getattr", "cast",
                  "range", "enumerate", "zip", "reversed", "str", "type", "repr", "print", "get_args",
                  "super", "object", "frozenset", "iter", "next", "id"}
@@ -67,6 +67,8 @@ class ExprMixin:
             return FuncRef(name, "class")
         if name in BUILTIN_FUNCS:
             return FuncRef(name, "builtin")
+        if name in ("Collection", "Tuple", "Union", "Optional", "Any", "List", "Dict", "Sequence_", "Iterable", "Mapping", "Type", "Callable", "Literal"):
+            return FuncRef(name, "typing")
         from .interp import EXC_PARENTS
         if name in EXC_PARENTS or name.endswith("Error") or name.endswith("Warning"):
             return FuncRef(name, "exc")
@@ -523,6 +525,10 @@ class ExprMixin:
             return [(BoundMethod(v, "<builtin>", attr), st)]
         if isinstance(v, tuple) and hasattr(v, "_fields"):
             return [(getattr(v, attr), st)]
+        if isinstance(v, Closure) and attr == "__name__":
+            return [(getattr(v, "fname", "?"), st)]
+        if isinstance(v, PyDict) and attr in ("values", "items", "keys", "get"):
+            return [(BoundMethod(v, "<builtin>", attr), st)]
         raise OutOfSubset(f"attribute {attr} of {v!r}", node)
 
     # ------------------------------------------------------------ subscripts
